@@ -221,6 +221,12 @@ def sstep (sound : Bool) (st : LStore) : SOp → LStore × Option Exc
     | some p => (Function.update st x (some (pstep sound p op).1), (pstep sound p op).2)
   | .assign c kv => assignRun sound (vars st c) st kv
 
+/-- `leaf.compute_unitary(assign=kv)`: `PS`, `WP` (`HWP`, `QWP`), `PR` start `_compute_unitary` with
+`self.assign(assign)`; `BS._compute_unitary` never looks at `assign` (neither do `PERM` / `PBS`, which have no
+parameters): `forwards = false`. The matrix is then computed from the store the call leaves. -/
+def computeAssign (sound forwards : Bool) (st : LStore) (c : Comp) (kv : List (String × ℚ)) : LStore × Option Exc :=
+  if forwards then sstep sound st (.assign c kv) else (st, none)
+
 /-- how a constructor fills one slot -/
 inductive Arg
   /-- a number: `Parameter(value=p, name=slot, min_v, max_v, periodic=True)` stored under `key` -/
